@@ -83,8 +83,9 @@ def rule_flow(ctx, rep, rid='R1'):
         tr = b.impl_trait.rsplit('::', 1)[-1]
         sty = b.impl_self
         inst = '%s for %s' % (tr, sty.replace('alloc::vec::', '').replace('core::time::', ''))
-        T = Terms(b)
-        rts = ret_terms(T, [0])
+        from .. import symb
+        T = Terms(inl(cad, b))
+        rts = set(leaf for r in ret_terms(T, [0]) for _, leaf in symb.split_cases(r))
         oks = [r for r in rts if r[0] == 'adt' and r[2] == 'Ok']
         if not oks:
             rep.bad(rid, inst, b.where(), 'conversion never succeeds')
@@ -159,13 +160,16 @@ def rule_units_and_guard(ctx, rep, units=True):
         if unit is None:
             rep.unknown('R2', inst, b.where(), 'no unit is specified for Duration under %s' % tr)
             continue
-        T = Terms(b)
+        from .. import symb
+        ib = inl(cad, b)
+        T = Terms(ib)
         is_vec = sty.startswith('alloc::vec::Vec<')
         if not is_vec:
             conv = None      # (cast term, block)
-            for r in ret_terms(T, [0]):
-                if r[0] == 'adt' and r[2] == 'Ok':
-                    conv = dict(dict(r[3])['0'][3])['0']
+            for r0 in ret_terms(T, [0]):
+                for _, r in symb.split_cases(r0):
+                    if r[0] == 'adt' and r[2] == 'Ok' and dict(r[3])['0'][0] == 'adt':
+                        conv = dict(dict(r[3])['0'][3])['0']
             if conv is None:
                 continue
             acc = [y for y in walk(conv) if y[0] == 'call' and isinstance(y[1], str) and y[1].startswith('core::time::Duration::')]
@@ -178,13 +182,15 @@ def rule_units_and_guard(ctx, rep, units=True):
                 rep.bad('R3', inst, b.where(), 'conversion is not a single `<128-bit count> as u64`: %s' % fmt(conv)[:100])
                 continue
             x = casts[0][4]
-            # the Ok construction site: find the block that assigns the MetricValue aggregate
-            okb = _block_of_variant(b, 'Unsigned')
-            verdict, why = _guard_exact(T, b, okb, x)
+            # the site of the narrowing cast (in the body or in an inlined private helper)
+            okb = _block_of_cast(ib, 'u128', 'u64')
+            verdict, why = _guard_exact(T, ib, okb, x)
             rep.ob('R3', inst, verdict, b.where(okb) if okb is not None else b.where(), 'guard `count > u64::MAX` exactly separates rejected from sent values; the rejected edge returns InvalidInput' if verdict else why)
         else:
             cls = cad.closures_of(b.path)
             anyc = mapc = None
+            b0 = b
+            b = ib
             for bi, t in b.calls():
                 if b.blocks[bi]['cleanup']:
                     continue
@@ -198,6 +204,10 @@ def rule_units_and_guard(ctx, rep, units=True):
                 continue
             ab = _closure_body(cad, b, anyc[1][2][1])
             mb = _closure_body(cad, b, mapc[1][2][1])
+            if ab is not None:
+                ab = inl(cad, ab)
+            if mb is not None:
+                mb = inl(cad, mb)
             if ab is None or mb is None:
                 rep.unknown('R3', inst, b.where(), 'closures of any()/map() not found')
                 continue
@@ -243,6 +253,16 @@ def rule_units_and_guard(ctx, rep, units=True):
             rep.ob('R3', inst, ok, b.where(), 'any(count > u64::MAX) over the whole list rejects with InvalidInput, otherwise every element is cast' if ok else
                    (why if not verdict else 'any()/map() are not wired as reject-else-convert over the whole list (only part of the list is checked?)'))
     rep.floor('R3', 'narrowing u128->u64 conversions', n_casts, 4)
+
+
+def _block_of_cast(b, frm, to):
+    for bi, blk in enumerate(b.blocks):
+        if blk['cleanup']:
+            continue
+        for s in blk['stmts']:
+            if s['k'] == 'assign' and s['rv']['k'] == 'cast' and s['rv']['ck'] == 'IntToInt' and s['rv']['from'] == frm and s['rv']['to'] == to:
+                return bi
+    return None
 
 
 def _block_of_variant(b, variant):
@@ -303,7 +323,8 @@ def _guard_exact(T, b, okb, x):
                 # rejected edge returns InvalidInput
                 dt2, edges = T.switch_facts(sbi)
                 rej = [q for q, labs in edges.items() if ('bool', not lab[1]) in labs]
-                r = ret_terms(T, rej)
+                from .. import symb
+                r = set(leaf for y in ret_terms(T, rej) for _, leaf in symb.split_cases(y))
                 if r and all(_is_invalid_input(y) for y in r):
                     return True, ''
                 return False, 'the rejected edge does not return an InvalidInput error'
